@@ -14,7 +14,7 @@ def to_sx(x):
     if x is True: return "x" + b"true".hex()
     if x is False: return "x" + b"false".hex()
     if isinstance(x, int): return "x" + str(x).encode().hex()
-    if isinstance(x, str): return "x" + x.encode("utf-8", "surrogatepass").hex()
+    if isinstance(x, str): return "x" + x.encode("utf-8", "surrogateescape").hex()
     if isinstance(x, (bytes, bytearray)): return "x" + bytes(x).hex()
     if isinstance(x, (list, tuple)): return "(" + " ".join(to_sx(y) for y in x) + ")"
     raise TypeError("to_sx: %r" % (x,))
@@ -51,7 +51,7 @@ def to_coq(x):
     if x is True: x = "true"
     if x is False: x = "false"
     if isinstance(x, int): x = str(x)
-    if isinstance(x, str): x = x.encode("utf-8", "surrogatepass")
+    if isinstance(x, str): x = x.encode("utf-8", "surrogateescape")
     if isinstance(x, (bytes, bytearray)): return "Atom (bytes [" + ";".join(str(b) for b in x) + "]%N)"
     return "Lst [" + "; ".join(to_coq(y) for y in x) + "]"
 
